@@ -808,8 +808,8 @@ func (g *caseGen) modelSafe(m []byte) bool {
 
 func generate(r *hxlib.Run, emit func(hxlib.Case)) {
 	regressionCases(r, emit)
-	nSeq := r.Budget(2400, 24000)
-	nFuzz := r.Budget(800, 8000)
+	nSeq := r.Budget(1700, 24000)
+	nFuzz := r.Budget(600, 8000)
 	nConc := r.Budget(700, 6000)
 	for i := 0; i < nSeq; i++ {
 		if crashes >= 8 {
